@@ -1,7 +1,9 @@
 //! Key identity for vcoll maps. Keys are compared through `vkey()` (a u64) instead of
 //! `PartialEq`, so that `String`-like keys do not drag `memcmp`/allocation reasoning into CBMC
 //! (measured: three operations on a `String`-keyed map = 2.7 M SAT variables).
-//! For integers it is the identity. For strings it is injective only on strings of length <= 7
+//! Identities are ORDER-PRESERVING (a < b <=> a.vkey() < b.vkey()), so sorted iteration compares
+//! identities and never calls `Ord` on the keys (Ipv4Addr / String comparisons go through memcmp,
+//! which dominated symbolic execution). For integers it is the identity. For strings it is injective only on strings of length <= 7
 //! (bytes packed into the u64 with the length); longer keys are a model limit
 //! ("vcoll:" assertion => undecided, never a violation).
 pub trait VKey {
@@ -13,13 +15,14 @@ macro_rules! vkey_int {
 vkey_int!(u8, u16, u32, u64, usize, bool, char);
 
 impl VKey for str {
-    /// loop-free (no unwinding bound needed): length in the low byte, then up to 7 bytes
+    /// loop-free and ORDER-PRESERVING: the first 7 bytes big-endian, then the length, so that
+    /// comparing identities == comparing the strings lexicographically (strings without NUL bytes)
     fn vkey(&self) -> u64 {
         let b = self.as_bytes();
         let n = b.len();
         assert!(n <= 7, "vcoll: string keys longer than 7 bytes are not modelled");
-        let at = |i: usize| -> u64 { if i < n { (b[i] as u64) << (8 * (i + 1)) } else { 0 } };
-        (n as u64) | at(0) | at(1) | at(2) | at(3) | at(4) | at(5) | at(6)
+        let at = |i: usize| -> u64 { if i < n { (b[i] as u64) << (8 * (7 - i)) } else { 0 } };
+        at(0) | at(1) | at(2) | at(3) | at(4) | at(5) | at(6) | (n as u64)
     }
 }
 impl VKey for String {
